@@ -692,6 +692,11 @@ def _inline_new_temps(fn, ref_names, params, stats, key):
         last = max(order[id(n)] for n in loads)
         bad = False
         inside = {id(n) for n in ast.walk(st)}
+        # the targets of an assignment are bound AFTER its value (which holds the last use) has been evaluated
+        for s2 in block[idx + 1:]:
+            if isinstance(s2, ast.Assign) and any(id(n) == id(l) for l in loads for n in ast.walk(s2.value)) and max(order[id(n)] for n in ast.walk(s2) if id(n) in order) >= last:
+                for t in s2.targets:
+                    inside |= {id(n) for n in ast.walk(t)}
         for n in ast.walk(fn):
             if id(n) in inside:
                 continue            # the comprehension variables of the moved expression itself
